@@ -55,7 +55,20 @@ def discharge(ob, timeout_ms=None, use_cvc5=True, phase1_only=False, phase1_ms=N
         s.add(a)
     s.add(z3.Not(goal))
     s.set('timeout', min(phase1_ms or PHASE1_MS, budget))
+    if SAFE_MODE[0] and phase1_only:
+        ob.status, ob.backend = 'unknown', 'z3'
+        ob.smt2, ob.budget = s.to_smt2(), budget
+        ob.time = time.time() - t0
+        return ob
+    if os.environ.get('PYVC_TRACE'):
+        with open('/var/tmp/pyvc-trace-%d.log' % os.getpid(), 'a') as tf:
+            tf.write('ob %s\n' % ob.oid)
+        if os.environ.get('PYVC_TRACE') == 'dump':
+            open('/var/tmp/pyvc-last-%d.smt2' % os.getpid(), 'w').write(s.to_smt2())
     r = s.check()
+    if os.environ.get('PYVC_TRACE'):
+        with open('/var/tmp/pyvc-trace-%d.log' % os.getpid(), 'a') as tf:
+            tf.write('   -> %s\n' % r)
     if r == z3.unsat:
         ob.status, ob.backend = 'proved', 'z3'
     elif r == z3.sat:
@@ -159,7 +172,7 @@ def run_job(job):
             d = ob_dict(ob, ex)
             if ob.status == 'unknown':
                 n_unknown += 1
-                if n_unknown <= MAX_PHASE2_PER_JOB and getattr(ob, 'smt2', None):
+                if (n_unknown <= MAX_PHASE2_PER_JOB or SAFE_MODE[0]) and getattr(ob, 'smt2', None):
                     d['_smt2'], d['_budget'] = ob.smt2, ob.budget
             res['obligations'].append(d)
     except OutOfSubset as e:
@@ -231,16 +244,82 @@ def _inst_repr(inst):
     return out
 
 
+JOB_DEADLINE_S = int(os.environ.get('PYVC_JOB_DEADLINE_S', '240'))
+SAFE_MODE = [False]
+
+
+def _job_child(conn, idx):
+    try:
+        conn.send(run_job(_JOBS[idx]))
+    except BaseException:
+        conn.send({'contract': getattr(_JOBS[idx][0], 'name', '?'), 'file': '', 'func': '', 'instance': {}, 'obligations': [], 'status': 'crash',
+                   'error': traceback.format_exc(), 'paths': 0, 'vacuous': False, 'notes': [], 'src_sha': None, 'time': 0.0})
+    finally:
+        conn.close()
+
+
+def _run_killable(indices, procs, deadline, safe):
+    """one forked process per job, at most `procs` at a time; a job that exceeds the deadline is killed (the in-process z3 API can
+    ignore its own time limit while building models for quantified formulas) and reported as None"""
+    ctx = mp.get_context('fork')
+    SAFE_MODE[0] = safe
+    pending = list(indices)
+    running = {}
+    out = {}
+    while pending or running:
+        while pending and len(running) < procs:
+            i = pending.pop(0)
+            pr, pw = ctx.Pipe(duplex=False)
+            p = ctx.Process(target=_job_child, args=(pw, i))
+            p.start()
+            pw.close()
+            running[i] = (p, pr, time.time())
+        done = []
+        for i, (p, pr, t0) in running.items():
+            if pr.poll(0):
+                try:
+                    out[i] = pr.recv()
+                except EOFError:
+                    out[i] = None
+                done.append(i)
+            elif not p.is_alive():
+                out[i] = None
+                done.append(i)
+            elif time.time() - t0 > deadline:
+                p.kill()
+                out[i] = None
+                done.append(i)
+        for i in done:
+            p, pr, _ = running.pop(i)
+            p.join(5)
+            pr.close()
+        if not done:
+            time.sleep(0.02)
+    SAFE_MODE[0] = False
+    return out
+
+
 def run_contracts(contracts, procs=None):
     jobs = [(c, k) for c in contracts for k in range(len(c.instances))]
     procs = procs or min(16, max(1, len(jobs)))
-    if procs == 1 or len(jobs) == 1:
-        return second_phase([run_job(j) for j in jobs])
     _set_jobs(jobs)
-    ctx = mp.get_context('fork')
-    with ctx.Pool(procs) as pool:
-        results = pool.map(_run_indexed, [(i,) for i in range(len(jobs))], chunksize=1)
-    return second_phase(results)
+    res = _run_killable(range(len(jobs)), procs, JOB_DEADLINE_S, safe=False)
+    retry = [i for i in range(len(jobs)) if res[i] is None]
+    if retry:
+        # safe mode: no in-process solver calls on quantified formulas (pruning by the quantifier-free part only, every obligation
+        # goes to the external solvers, which are killed at their time limit)
+        res2 = _run_killable(retry, procs, 4 * JOB_DEADLINE_S, safe=True)
+        for i in retry:
+            r = res2[i]
+            if r is None:
+                c, k = jobs[i]
+                r = {'contract': c.name, 'file': c.file, 'func': c.func, 'instance': {}, 'obligations': [], 'status': 'timeout',
+                     'error': 'job exceeded its deadline twice (in-process and external-solver mode)', 'paths': 0, 'vacuous': False, 'notes': [],
+                     'src_sha': None, 'time': float(5 * JOB_DEADLINE_S)}
+            else:
+                r['notes'] = list(r.get('notes', [])) + ['first attempt killed at the job deadline; result from the external-solver retry']
+            res[i] = r
+    return second_phase([res[i] for i in range(len(jobs))])
 
 
 def second_phase(results):
